@@ -454,6 +454,14 @@ def run_check(sim, prop, tier, verif_seed, n_runs=None, seconds=None, level="exp
     # 2. batch
     import tempfile
     import shutil
+    import glob
+    for stale in glob.glob(os.path.join(tempfile.gettempdir(), "verif-*")):
+        # scratch left behind by a killed earlier invocation (never needed by anything): drop it after 3 hours
+        try:
+            if time.time() - os.path.getmtime(stale) > 3 * 3600:
+                shutil.rmtree(stale, ignore_errors=True)
+        except OSError:
+            pass
     scratch = tempfile.mkdtemp(prefix="verif-scratch-")       # per-invocation scratch (oracle answer cache), removed below
     os.environ["VERIF_ISO_CACHE"] = scratch
     n_dup = sim.n_dup(prop, tier)
